@@ -23,12 +23,12 @@ from checks import plangraph  # noqa
 SHIPRUN = os.path.join(os.path.dirname(os.path.dirname(os.path.abspath(__file__))), "harness", "shiprun.py")
 
 
-def run_scenario(hist):
+def run_scenario(hist, sender_computes=False):
     """Both processes of a scenario in fresh interpreters; returns list of outcome records."""
     d = tempfile.mkdtemp(prefix="c20-")
     try:
         sf = os.path.join(d, "scenario.json")
-        json.dump(dict(hist=hist), open(sf, "w"))
+        json.dump(dict(hist=hist, sender_computes=sender_computes), open(sf, "w"))
         outs = []
         # a process must run before the processes it ships to: order = by first appearance as a sender
         order = []
@@ -129,7 +129,7 @@ def run(chk):
         hs += [h for h in got if valid_for_replay(h["hist"])][:n // 2 + 1]
     for k, hrec in enumerate(hs):
         hist, taint = hrec["hist"], sorted(hrec["taint"])
-        outs = run_scenario(hist)
+        outs = run_scenario(hist, sender_computes=(k % 2 == 1))
         fails = [o for o in outs if not o["ok"]]
         chk.case(key=str(hist), nontrivial=True,
                  sample=dict(history=[(st["a"], st["p"], st["i"], st["j"]) for st in hist], model_taint=taint, outcomes=outs[:3]) if k % 10 == 1 else None)
